@@ -20,7 +20,7 @@ from pyvc import hklmodel as H, sgtables, terms as T
 from pyvc.runner import Unit
 from pyvc.source import Source
 
-MODULES_QUICK = ('tools',)
+MODULES_QUICK = ('tools', 'laue')
 
 
 def _t24(o):
@@ -382,6 +382,9 @@ def units(tier):
     for m in mods:
         us.append(TraversalUnit(m, False))
         us.append(TraversalUnit(m, True))
+    from .dedup import DedupKeyUnit
+    for m in ('tools', 'laue'):
+        us.append(DedupKeyUnit(m))
     return us
 
 
